@@ -57,6 +57,10 @@ def tab_section(target, nr=None):
     return t + "\n"
 
 
+def impl_tab(cfg):
+    return write_bytes(Configuration().read(io.StringIO(cfg)), False)
+
+
 def write_bytes(tab, binary):
     buf = io.BytesIO() if binary else io.StringIO()
     tab.write(buf)
@@ -156,6 +160,57 @@ def check(run):
             run.tie_broken("static-scan", "iteration over an unsorted set: %s %s() `for .. in %s`" % l, "the model has no permutation parameter for this site")
     for d in sorted(defaults - EXPECTED_MUTABLE_DEFAULTS):
         run.tie_broken("static-scan", "new mutable default argument: %s %s(%s=...)" % d, "shared between calls; not accounted for by the model")
+    # ---- (a0) Python-API objects built on pre-tabulated data (TableReader): write twice, evaluate in any order ------------------------
+    from atsim.potentials import Potential, TableReader
+    from atsim.potentials.pair_tabulation import LAMMPS_PairTabulation, GULP_PairTabulation
+    for i in range(run.n(4, 40)):
+        n = rng.randint(6, 30)
+        xs = sorted(set(round(rng.uniform(0.0, 6.0), 3) for _ in range(n)) | {0.0, 6.0})
+        rows = "".join("%r %r\n" % (x, round(rng.uniform(-5, 50), 4)) for x in xs)
+
+        def build():
+            rd = TableReader(io.StringIO(rows))
+            return [Potential("A", "B", rd), Potential("B", "B", rd)], rd      # one reader shared by two interactions
+        cls = LAMMPS_PairTabulation if i % 2 == 0 else GULP_PairTabulation
+        pots, rd = build()
+        tab = cls(pots, 5.5, rng.randint(8, 40))
+        nr_ = tab.nr
+        ref = write_bytes(tab, False)
+        run.case(key=("api-tablereader", rows, nr_), kind="history/api-tablereader")
+        run.traces += 3
+        again = write_bytes(tab, False)
+        pots2, rd2 = build()
+        qs = [round(rng.uniform(0.0, 6.0), 3) for _ in range(30)]
+        for q in qs:
+            rd2.getValue(q) if hasattr(rd2, "getValue") else rd2(q)
+        shuffled = write_bytes(cls(pots2, 5.5, nr_), False)
+        vals_fwd = [rd2(q) for q in sorted(qs)]
+        vals_rev = list(reversed([rd2(q) for q in sorted(qs, reverse=True)]))
+        if again != ref or shuffled != ref or vals_fwd != vals_rev:
+            what = "second write of the same tabulation differs from the first" if again != ref else ("table written after the data reader had been queried at other separations differs from a fresh one" if shuffled != ref else
+                                                                                                     "the reader returns different values for the same separations queried in ascending and in descending order")
+            run.fail("history-dependent-output", "Python API, %s over TableReader data: %s" % (cls.__name__, what), dict(data_file=rows, nr=nr_, cutoff=5.5))
+    # ---- (a1) reference data: a model WITHOUT [Species] entries takes atomic number / mass / lattice from the built-in table, whatever was built before ------
+    for target in ["setfl", "DL_POLY_EAM", "setfl_fs", "eam_adp"]:
+        fsd = target.endswith("_fs")
+        plain = (tab_section(target) + "[EAM-Embed]\nAl : as.sqrt 1.0\nCu : as.sqrt 2.0\n[EAM-Density]\n"
+                 + ("Al->Al : as.bornmayer 1.0 0.5\nAl->Cu : as.bornmayer 2.0 0.5\nCu->Al : as.bornmayer 3.0 0.5\nCu->Cu : as.bornmayer 4.0 0.5\n" if fsd else "Al : as.bornmayer 1.0 0.5\nCu : as.bornmayer 2.0 0.5\n")
+                 + "[Pair]\nAl-Cu : as.buck 1000.0 0.3 0.0\n" + ("[EAM-ADP-Dipole]\n[EAM-ADP-Quadrupole]\n" if target == "eam_adp" else ""))
+        withdata = plain + "[Species]\nAl.atomic_mass : 99.5\nAl.lattice_constant : 4.05\nAl.lattice_type : bcc\nCu.atomic_number : 128\nCu.atomic_mass : 1.25\n"
+        try:
+            ref = impl_tab(plain)
+            impl_tab(withdata)
+            after = impl_tab(plain)
+        except Exception as e:
+            run.fail("history-dependent-output", "target %s: reference-data scenario raised %s: %s" % (target, type(e).__name__, str(e)[:150]), dict(potable_file=plain))
+            continue
+        run.case(key=("species-data-history", target), kind="history/species-data")
+        run.traces += 3
+        if after != ref:
+            la, lb = ref.split("\n"), after.split("\n")
+            d = [(x, y) for x, y in zip(la, lb) if x != y][:2]
+            run.fail("history-dependent-output", "target %s: a model without [Species] entries tabulates differently after ANOTHER model that gives [Species] data for Al and Cu was tabulated in the "
+                     "same process: %s" % (target, d), dict(potable_file=plain, model_built_before=withdata))
     # ---- (a) histories ---------------------------------------------------------------------------------------------------------
     models = []
     for i in range(run.n(10, 120)):
@@ -219,6 +274,24 @@ def check(run):
         if o2 is None:
             continue
         histories.append(("other-model-before", norm(o2)))
+        # 2b: a DIFFERENT model that gives [Species] data for the same species labels was built (and written) before
+        if kind.startswith("eam"):
+            import re
+            m_ = re.search(r"\[EAM-Embed\]\n(.*?)(\n\[|\Z)", body, flags=re.S)
+            labels = sorted(set(re.findall(r"^\s*([A-Za-z]+)\s*[:=]", m_.group(1), flags=re.M))) if m_ else []
+            if labels:
+                ocfg = ("[Tabulation]\ntarget : setfl\ncutoff : 3.5\nnr : 8\ncutoff_rho : 2.0\nnrho : 5\n\n[EAM-Embed]\n" + "".join("%s : as.zero\n" % x for x in labels)
+                        + "[EAM-Density]\n" + "".join("%s : as.zero\n" % x for x in labels) + "[Pair]\n[Species]\n"
+                        + "".join("%s.atomic_number : %d\n%s.atomic_mass : %s\n%s.lattice_constant : 9.875\n%s.lattice_type : bcc\n" % (x, 150 + i, x, 999.5 + i, x, x) for i, x in enumerate(labels)))
+                try:
+                    write_bytes(Configuration().read(io.StringIO(ocfg)), False)
+                except Exception:
+                    pass
+                t2b = attempt("build after a model with other [Species] data for the same labels", fresh)
+                if t2b is not None:
+                    o2b = attempt("write after a model with other [Species] data for the same labels was tabulated", lambda: write_bytes(t2b, binary))
+                    if o2b is not None:
+                        histories.append(("other-model-with-species-data-before", norm(o2b)))
         # 3: potentials evaluated in shuffled, interleaved order before writing
         t3 = fresh()
         pots = list(t3.potentials)
